@@ -11,12 +11,25 @@ Lemma M_val : M = 65521. Proof. reflexivity. Qed.
 Lemma FM_val : FM = 65521. Proof. reflexivity. Qed.
 Lemma INTERVAL_val : INTERVAL = 5000. Proof. reflexivity. Qed.
 
+Lemma P32_val : P32 = 2^32. Proof. reflexivity. Qed.
+Lemma P64_val : P64 = 2^64. Proof. reflexivity. Qed.
+Lemma pow2_val k : pow2 k = 2^k.
+Proof. unfold pow2. destruct (Z.eqb_spec k 32) as [->|]; [reflexivity|].
+  destruct (Z.eqb_spec k 64) as [->|]; reflexivity. Qed.
+Lemma w32_mod x : w32 x = x mod 2^32.
+Proof. unfold w32. rewrite P32_val.
+  destruct (Z.leb_spec 0 x); destruct (Z.ltb_spec x (2^32)); cbn [andb]; try reflexivity.
+  symmetry; apply Z.mod_small; lia. Qed.
+Lemma w64_mod x : w64 x = x mod 2^64.
+Proof. unfold w64. rewrite P64_val.
+  destruct (Z.leb_spec 0 x); destruct (Z.ltb_spec x (2^64)); cbn [andb]; try reflexivity.
+  symmetry; apply Z.mod_small; lia. Qed.
 Lemma w32_id x : 0 <= x < 2^32 -> w32 x = x.
-Proof. intros; unfold w32; apply Z.mod_small; lia. Qed.
+Proof. intros; rewrite w32_mod; apply Z.mod_small; lia. Qed.
 Lemma w64_id x : 0 <= x < 2^64 -> w64 x = x.
-Proof. intros; unfold w64; apply Z.mod_small; lia. Qed.
+Proof. intros; rewrite w64_mod; apply Z.mod_small; lia. Qed.
 Lemma ck_some k x : 0 <= x < 2^k -> ck k x = Some x.
-Proof. intros [H1 H2]; unfold ck.
+Proof. intros [H1 H2]; unfold ck. rewrite pow2_val.
   apply Z.leb_le in H1; apply Z.ltb_lt in H2; now rewrite H1, H2. Qed.
 
 (** ** Exact sums *)
